@@ -29,6 +29,7 @@ package runtime
 
 //@ func semaAcquire
 //@ params addr
+//@ locals v st
 //@ props C11
 //@ lock semaState.mu protects self.waiters
 //@ lock semaState.mu wait_invariant C11 sleeps-only-after-seeing-zero-under-the-lock: ghost(obs_zero) == 1
@@ -58,6 +59,7 @@ package runtime
 
 //@ func sync_runtime_notifyListWait
 //@ params l t
+//@ locals st
 //@ props C11
 //@ lock notifyState.mu protects l.notify
 //@ requires l != nil
